@@ -63,13 +63,25 @@ def lib_verify_call(call):
     return None
 
 
+class _HNames(object):
+    """names caught by one handler + whether that handler is transparent (records / re-raises the same exception)."""
+
+    def __init__(self, names, transparent):
+        self.names = names
+        self.transparent = transparent
+
+
 class Escapes(object):
-    def __init__(self, prog, cg=None, extra_catalog=None, dict_subscripts=None, extra_sites=None):
+    def __init__(self, prog, cg=None, extra_catalog=None, dict_subscripts=None, extra_sites=None, dynamic_targets=None,
+                 transparent_handlers=None):
+        self.dynamic_targets = dynamic_targets            # optional callable(FuncInfo, Call) -> [qual] for calls through tables / variables
+        self.transparent_handlers = transparent_handlers  # optional callable(FuncInfo, Try, ExceptHandler) -> True when that handler only *records* / re-raises the same exception
         self.extra_sites = extra_sites  # optional callable(FuncInfo) -> [(ast node, exception class, why)]
         self.prog = prog
         self.cg = cg
         self.memo = {}
         self.busy = set()
+        self._cur = None
         self.catalog = list(CATALOG) + list(extra_catalog or [])
         self.dict_subscripts = dict_subscripts  # optional callable(func, Subscript) -> class list or None
 
@@ -117,7 +129,11 @@ class Escapes(object):
         while p is not None and p is not fnode:
             if isinstance(p, ast.Try):
                 if any(n is s for s in p.body):
-                    out.append([handler_names(h) for h in p.handlers])
+                    frame = []
+                    for h in p.handlers:
+                        tr = self.transparent_handlers is not None and self._cur is not None and self.transparent_handlers(self._cur, p, h)
+                        frame.append(_HNames(handler_names(h), tr))
+                    out.append(frame)
             if isinstance(p, ast.ExceptHandler) and inside is None:
                 inside = p
             n = p
@@ -129,7 +145,9 @@ class Escapes(object):
         frames, _ = self.enclosing_handlers(node, fnode)
         for hs in frames:
             for names in hs:
-                if self.caught_by(exc, names):
+                if self.caught_by(exc, names.names if isinstance(names, _HNames) else names):
+                    if isinstance(names, _HNames) and names.transparent:
+                        break       # the first matching handler only records / re-raises: the exception goes on outward
                     return False
         return True
 
@@ -151,6 +169,25 @@ class Escapes(object):
                 out.append((classes, why))
         return out
 
+    def solve(self, quals, max_rounds=8):
+        """fixpoint over a set of (possibly mutually recursive) functions: a first pass cuts cycles at the function
+        being computed; later passes recompute every function against the previous round's summaries until stable."""
+        quals = sorted(quals)
+        for q in quals:
+            self.of(q)
+        for _ in range(max_rounds):
+            changed = False
+            for q in quals:
+                old = self.memo.pop(q, set())
+                new = self.of(q)
+                if new != old:
+                    if not new >= old:
+                        self.memo[q] = new | old
+                    changed = True
+            if not changed:
+                break
+        return dict((q, self.memo.get(q, set())) for q in quals)
+
     def of(self, qual):
         if qual in self.memo:
             return self.memo[qual]
@@ -162,6 +199,8 @@ class Escapes(object):
         self.busy.add(qual)
         out = set()
         fnode = f.node
+        saved_cur = getattr(self, "_cur", None)
+        self._cur = f
         for n in walk_no_defs(fnode):
             if isinstance(n, ast.Raise):
                 frames, inside = self.enclosing_handlers(n, fnode)
@@ -173,6 +212,12 @@ class Escapes(object):
                 else:
                     e = n.exc.func if isinstance(n.exc, ast.Call) else n.exc
                     classes = [dotted(e) or unparse(e)]
+                    if isinstance(e, ast.Name) and e.id not in self.prog.classes and e.id not in PARENTS:
+                        # `raise exc_class(...)` with exc_class a local bound to class names: every binding counts
+                        bound = [unparse(a.value) for a in walk_no_defs(fnode) if isinstance(a, ast.Assign) and len(a.targets) == 1
+                                 and isinstance(a.targets[0], ast.Name) and a.targets[0].id == e.id and isinstance(a.value, (ast.Name, ast.Attribute))]
+                        if bound:
+                            classes = sorted(set(bound))
                 for c in classes:
                     if self.survives(c, n, fnode):
                         out.add((c.split(".")[-1] if c.split(".")[-1] in self.prog.classes else c, "raise at %s:%d" % (f.module.path, n.lineno)))
@@ -186,7 +231,10 @@ class Escapes(object):
                             out.add((c, "%s at %s:%d (%s)" % (unparse(n.func)[:50], f.module.path, n.lineno, why)))
                 if self.cg is not None:
                     ts, miss = self.cg._targets(f, n)
+                    if self.dynamic_targets is not None:
+                        ts = list(ts) + list(self.dynamic_targets(f, n) or [])
                     for t in ts:
+                        self._cur = f
                         for (c, origin) in self.of(t):
                             if self.survives(c, n, fnode):
                                 out.add((c, origin if " via " in origin else origin + " via " + t))
@@ -199,6 +247,7 @@ class Escapes(object):
             for (node, c, why) in self.extra_sites(f):
                 if self.survives(c, node, fnode):
                     out.add((c, "%s at %s:%d (%s)" % (unparse(node)[:50], f.module.path, getattr(node, "lineno", 0), why)))
+        self._cur = saved_cur
         self.busy.discard(qual)
         self.memo[qual] = out
         return out
@@ -278,6 +327,8 @@ def unguarded_constant_subscripts(prog, finfo, origin_ok=None):
                         b = 0 if unparse(rhs.func) != "re.split" else 1
                     elif rhs is not None and isinstance(rhs, ast.Subscript) and isinstance(rhs.slice, ast.Slice):
                         b = 0
+                    elif rhs is not None and isinstance(rhs, ast.Call) and any(isinstance(a, ast.Name) and a.id == name for a in rhs.args):
+                        b = 0       # x = f(x): a transformed copy of unknown length
                     else:
                         b = None
                     if b is None:
